@@ -161,6 +161,9 @@ def r20_3(run):
     ad = AD(run)
     up = M_(run, ad, 'update')
     OLDN = names_defined_by(up, lambda v: dotted(v) == 'self.expires')
+    # ... or only whether there was one: had = self.expires is not None / no_deadline = self.expires is None
+    HADN = names_defined_by(up, lambda v: isinstance(v, ast.Compare) and len(v.ops) == 1 and dotted(v.left) == 'self.expires' and is_none(v.comparators[0]) and isinstance(v.ops[0], ast.IsNot))
+    HADNOTN = names_defined_by(up, lambda v: isinstance(v, ast.Compare) and len(v.ops) == 1 and dotted(v.left) == 'self.expires' and is_none(v.comparators[0]) and isinstance(v.ops[0], ast.Is))
     ex = M_(run, ad, '_expire')
     g = cfg_of(up)
 
@@ -200,6 +203,10 @@ def r20_3(run):
                 if isinstance(a, ast.Compare) and dotted(a.left) == 'self.expiry' and is_none(a.comparators[0]):
                     isnone = not old_timed
                     return isnone if isinstance(a.ops[0], ast.Is) else (not isnone)
+                if dotted(a) in HADN:
+                    return old_timed
+                if dotted(a) in HADNOTN:
+                    return not old_timed
                 if isinstance(a, ast.Call) and dotted(a.func) == 'self.expiry.active':
                     return old_timed
                 if dotted(a) == 'self.expiry':
@@ -279,8 +286,8 @@ def r20_3(run):
     run.ob('R20.3', up, up.node, 'the current time used for a new timer is read in this very update', okc, slot='fresh-now',
            message='self.created is not (re)assigned from the clock on every path before callLater: a timer armed on an older '
                    'entry is too long by the age of the entry')
-    oe = [n for n in walk_unit(up) if isinstance(n, ast.Assign) and isinstance(n.targets[0], ast.Name) and dotted(n.value) == 'self.expires']
-    ok = len(oe) == 1 and dotted(oe[0].value) == 'self.expires'
+    oe = [n for n in walk_unit(up) if isinstance(n, ast.Assign) and isinstance(n.targets[0], ast.Name) and (dotted(n.value) == 'self.expires' or n.targets[0].id in HADN or n.targets[0].id in HADNOTN)]
+    ok = len(oe) == 1
     g2 = cfg_of(up)
     if ok:
         on = g2.nodes_containing(oe[0])
